@@ -382,7 +382,12 @@ func R20Serialise(c *Ctx) {
 		}
 	}
 	nTok := 0
-	for _, b := range w.Blocks {
+	// the Token literal may be built by a helper of writerTokens that receives the native token (and the gap)
+	var wBlocks []*ssa.BasicBlock
+	for _, wf := range HelperClosure(w, 1) {
+		wBlocks = append(wBlocks, wf.Blocks...)
+	}
+	for _, b := range wBlocks {
 		for _, in := range b.Instrs {
 			st, ok := in.(*ssa.Store)
 			if !ok {
@@ -421,7 +426,29 @@ func R20Serialise(c *Ctx) {
 					c.R.Bad(rule, fname, "Bytes = copy of native.Bytes", c.pos(st.Pos()), "the writer token's bytes are not a full private copy (make(len(native.Bytes)) + copy) of the native token's bytes")
 				}
 			case "SpacesBefore":
-				bo, ok := st.Val.(*ssa.BinOp)
+				sv := st.Val
+				// a helper's parameter: what its (single) call site in writerTokens passes
+				if prm, isP := sv.(*ssa.Parameter); isP && prm.Parent() != w {
+					h := prm.Parent()
+					for i, q := range h.Params {
+						if q != prm {
+							continue
+						}
+						var arg ssa.Value
+						nSites := 0
+						c.EveryCallSite(h, func(site ssa.CallInstruction) bool {
+							nSites++
+							if i < len(site.Common().Args) {
+								arg = site.Common().Args[i]
+							}
+							return true
+						})
+						if nSites == 1 && arg != nil {
+							sv = arg
+						}
+					}
+				}
+				bo, ok := sv.(*ssa.BinOp)
 				good := false
 				if ok && bo.Op == token.SUB {
 					start := rangeByte(bo.X, "Start")
@@ -991,54 +1018,57 @@ func R20ListEnds(c *Ctx) {
 			}
 			return false
 		}
-		for _, b := range fn.Blocks {
-			iff, ok := b.Instrs[len(b.Instrs)-1].(*ssa.If)
-			if !ok {
-				continue
-			}
-			bo, ok := iff.Cond.(*ssa.BinOp)
-			if !ok || bo.Op != token.EQL {
-				continue
-			}
-			var other ssa.Value
-			switch {
-			case isEndLoad(bo.X):
-				other = bo.Y
-			case isEndLoad(bo.Y):
-				other = bo.X
-			default:
-				continue
-			}
-			if !IsParam(other, fn.Params[0]) {
-				continue
-			}
-			n++
-			construct := "n is the list's " + end + " member → nodes." + end + " is moved"
-			// from the true edge: can a return be reached without a fixing block?
-			leak := false
-			seen := map[*ssa.BasicBlock]bool{}
-			var walk func(x *ssa.BasicBlock)
-			walk = func(x *ssa.BasicBlock) {
-				if seen[x] || leak {
-					return
+		for _, hf := range HelperClosure(fn, 1) {
+			for _, b := range hf.Blocks {
+				iff, ok := b.Instrs[len(b.Instrs)-1].(*ssa.If)
+				if !ok {
+					continue
 				}
-				seen[x] = true
-				if fixes(x) {
-					return
+				bo, ok := iff.Cond.(*ssa.BinOp)
+				if !ok || bo.Op != token.EQL {
+					continue
 				}
-				if len(x.Succs) == 0 {
-					leak = true
-					return
+				var other ssa.Value
+				switch {
+				case isEndLoad(bo.X):
+					other = bo.Y
+				case isEndLoad(bo.Y):
+					other = bo.X
+				default:
+					continue
 				}
-				for _, s := range x.Succs {
-					walk(s)
+				// the node being detached: Detach's receiver, directly or as what a helper is given for it
+				if !IsParam(other, fn.Params[0]) && c.RootParam(other, fn, 0) != fn.Params[0] {
+					continue
 				}
-			}
-			walk(b.Succs[0])
-			if leak {
-				c.R.Bad(rule, FuncShort(fn), construct, c.pos(bo.Pos()), "on a path where the detached node is the list's "+end+" member the function returns without updating nodes."+end+": the list keeps pointing at a node that is no longer linked")
-			} else {
-				c.R.Ok(rule, FuncShort(fn), construct, c.pos(bo.Pos()), "the end marker is moved (or the list cleared) on every such path", true)
+				n++
+				construct := "n is the list's " + end + " member → nodes." + end + " is moved"
+				// from the true edge: can a return be reached without a fixing block?
+				leak := false
+				seen := map[*ssa.BasicBlock]bool{}
+				var walk func(x *ssa.BasicBlock)
+				walk = func(x *ssa.BasicBlock) {
+					if seen[x] || leak {
+						return
+					}
+					seen[x] = true
+					if fixes(x) {
+						return
+					}
+					if len(x.Succs) == 0 {
+						leak = true
+						return
+					}
+					for _, s := range x.Succs {
+						walk(s)
+					}
+				}
+				walk(b.Succs[0])
+				if leak {
+					c.R.Bad(rule, FuncShort(fn), construct, c.pos(bo.Pos()), "on a path where the detached node is the list's "+end+" member the function returns without updating nodes."+end+": the list keeps pointing at a node that is no longer linked")
+				} else {
+					c.R.Ok(rule, FuncShort(fn), construct, c.pos(bo.Pos()), "the end marker is moved (or the list cleared) on every such path", true)
+				}
 			}
 		}
 	}
